@@ -79,7 +79,7 @@ fn gen_case(rng: &mut Rng, tier: Tier, sched_weight: usize, cut: (usize, usize),
     let sub_at = if rng.chance(1, 4) { rng.below(acts.len().max(1)) } else { 0 };
     let style = rng.below(6);
     let finish_after = if rng.chance(1, 5) { rng.range(1, 3) } else { 0 };
-    PCase { threads_flavour: rng.chance(1, 2), fifo: rng.chance(1, 2), n_hot, root, acts, sub_at, closure_subscriber: style == 1, sub_style: if style == 2 { 2 } else { 0 }, finish_after }
+    PCase { threads_flavour: rng.chance(1, 2), fifo: rng.chance(1, 2), n_hot, root, acts, sub_at, closure_subscriber: style == 1, sub_style: if style == 2 { 2 } else { 0 }, finish_after, panic_at: 0 }
   }
 }
 
@@ -175,11 +175,21 @@ impl Scenario for C17 {
     (&["every Subscription impl reachable through the catalogue: (), Subscriber, ZipSubscription, MultiSubscription(Threads), TaskHandle, RefCountSubscription, FinalizerSubscription, BoxSubscription(Threads)"], &["executor, timer, clock (sim)"])
   }
   fn generate(&self, rng: &mut Rng, tier: Tier) -> Value {
-    serde_json::to_value(gen_case(rng, tier, 2, (1, 3), vec![])).unwrap()
+    let mut c = gen_case(rng, tier, 2, (1, 3), vec![]);
+    // fault, counted but not judged: the subscriber's callback panics once.
+    // C17 quantifies over pipelines x input scripts, not over panicking
+    // callbacks, and on the unchanged tree a subscribe that is cut short by a
+    // panic (an inner observable of concat_all / merge_all that had attached
+    // to a hot input before a synchronous item made the callback panic) leaves
+    // that input attached while the handle answers closed
+    if rng.chance(1, 12) {
+      c.panic_at = rng.range(1, 3);
+    }
+    serde_json::to_value(c).unwrap()
   }
   fn run(&self, case: &Value) -> Result<Outcome, String> {
     let case: PCase = serde_json::from_value(case.clone()).map_err(|e| e.to_string())?;
-    let run = run_pipeline(&case)?;
+    let run = run_pipeline_with_panics(&case)?;
     let mut violation = None;
     let first_true = run.closed.iter().find(|(_, c)| *c).map(|(s, _)| *s);
     if let Some(s) = first_true {
@@ -198,8 +208,13 @@ impl Scenario for C17 {
         violation = Some(Violation { rule: "c17.panic".into(), site: site_of(&case), detail: p.clone() });
       }
     }
+    let mut after_panic = 0u64;
+    if case.panic_at > 0 {
+      after_panic = violation.is_some() as u64;
+      violation = None;
+    }
     let closed_before_end = first_true.map_or(false, |s| run.closed.iter().any(|(st, _)| *st > s));
-    Ok(outcome(&case, &run, violation, run.closed.len() >= 3, vec![], vec![("is_closed_true_sampled_before_the_end", closed_before_end as u64)]))
+    Ok(outcome(&case, &run, violation, run.closed.len() >= 3, vec![("subscriber_callback_panics", (case.panic_at > 0 && run.recs.len() >= case.panic_at) as u64)], vec![("is_closed_true_sampled_before_the_end", closed_before_end as u64), ("is_closed_sampled_after_the_subscriber_panicked", (case.panic_at > 0 && run.recs.len() >= case.panic_at) as u64), ("info:closed_answer_contradicted_after_a_subscriber_panic(not judged)", after_panic)]))
   }
 }
 
